@@ -506,6 +506,41 @@ theorem C20_for_property_end_to_end (c : ClassG) (n : Str) (vd : Option Str) (vm
               obtain ⟨ents, values, h1, h2, h3⟩ := C20_tovalues_is_spec _ vd vm h
               exact ⟨el, vals, rfl, hv, by rw [hm]; simp, ents, values, by rw [hm]; exact h1, h2, h3⟩
 
+/-- the same at the level of one CIM element (`_create_for_element` on a CIM object) -/
+theorem C20_createG_end_to_end (el : ElemG) (vd : Option Str) (vm : VM) (h : createG el vd = .ok vm) :
+    ∃ vals, (ncGet el.quals kValues).map QVal.items = some (some vals) ∧
+      (ncGet el.quals kValueMap).map QVal.items ≠ some none ∧
+      ∃ ents values,
+        specCreate ⟨el.typ, some vals, ((ncGet el.quals kValueMap).map QVal.items).bind id⟩ vd = .ok (ents, values) ∧
+        ents.length = values.length ∧ ∀ v : Int, tovalues vm v = specToValues ents values v := by
+  -- reuse the property version on a one-property class
+  have := C20_for_property_end_to_end ⟨[([], el)], []⟩ [] vd vm (by simpa [forProperty, ncGet] using h)
+  obtain ⟨el', vals, hel, rest⟩ := this
+  simp [ncGet] at hel; subst hel
+  exact ⟨vals, rest⟩
+
+/-- **end to end for for_method and for_parameter**: the method's return type and own qualifiers, resp. the
+    parameter's type and qualifiers, decide — as for properties -/
+theorem C20_for_method_parameter_end_to_end (c : ClassG) (n n2 : Str) (vd : Option Str) (vm : VM) :
+    (forMethod (.ok c) n vd = .ok vm → ∃ m, ncGet c.methods n = some m ∧ createG m.ret vd = .ok vm) ∧
+    (forParameter (.ok c) n n2 vd = .ok vm →
+        ∃ m el, ncGet c.methods n = some m ∧ ncGet m.params n2 = some el ∧ createG el vd = .ok vm) := by
+  constructor
+  · intro h
+    simp only [forMethod] at h
+    cases hg : ncGet c.methods n with
+    | none => simp [hg] at h
+    | some m => simp only [hg] at h; exact ⟨m, rfl, h⟩
+  · intro h
+    simp only [forParameter] at h
+    cases hg : ncGet c.methods n with
+    | none => simp [hg] at h
+    | some m =>
+      simp only [hg] at h
+      cases hg2 : ncGet m.params n2 with
+      | none => simp [hg2] at h
+      | some el => simp only [hg2] at h; exact ⟨m, el, rfl, hg2, h⟩
+
 /-- `createG` only lets ModelError / ValueError escape — partial: for elements whose Values / ValueMap qualifiers
     are not NULL-valued (C20-KF2).  Full statement (fails: `C20_createQ_null_value_leaks_fails_at`): no `hn`. -/
 theorem C20_factory_only_documented_errors_partial (gc : Except PyExc ClassG) (n n2 : Str) (vd : Option Str) (x : PyExc)
@@ -779,6 +814,50 @@ theorem C20_border_open_ends_use_type_limits (T : IntType) (raws : List Raw) (en
     simp only [Nat.zero_add, specHi, show raws.length - 1 + 1 = raws.length by omega, if_true] at h2
     simp at h2
     exact ⟨lo', by rw [he, h2]⟩
+
+/-- **Open ends inside the array are contiguous with the neighbour**: in every successfully resolved ValueMap,
+    an entry with an open lower end (not the first) starts exactly one above the upper end of the resolved left
+    neighbour, and an entry with an open upper end (not the last) stops exactly one below the lower end of the
+    resolved right neighbour — no gap, no overlap between them. -/
+theorem C20_inner_open_ends_contiguous (T : IntType) (raws : List Raw) (ents : List Ent)
+    (h : resolve T raws = some ents) (i : Nat) :
+    (∀ hi, raws[i + 1]? = some (.range none hi) →
+        ∃ l h' lo' hi', ents[i]? = some (some (l, h')) ∧ ents[i + 1]? = some (some (lo', hi')) ∧ lo' = h' + 1) ∧
+    (∀ lo, raws[i]? = some (.range lo none) → i + 1 < raws.length →
+        ∃ l' h' lo' hi', ents[i]? = some (some (lo', hi')) ∧ ents[i + 1]? = some (some (l', h')) ∧ hi' = l' - 1) := by
+  obtain ⟨_, hpt⟩ := (resolveFrom_some_iff T raws raws 0 ents).mp h
+  have hpt' : ∀ (k : Nat) r, raws[k]? = some r → ∃ e, ents[k]? = some e ∧ resolveAt T raws k r = some e := by
+    intro k r hr; simpa using hpt k r hr
+  constructor
+  · intro hi h1
+    obtain ⟨e1, he1, hr1⟩ := hpt' (i + 1) _ h1
+    obtain ⟨lo', hi', rfl, hlo, _⟩ := resolveAt_some hr1 (by simp)
+    simp only [specLo, Nat.add_one_ne_zero, if_false, Nat.add_sub_cancel] at hlo
+    cases hp : raws[i]? with
+    | none => simp [hp] at hlo
+    | some p =>
+      simp [hp] at hlo
+      obtain ⟨ph, hph, hlo'⟩ := hlo
+      obtain ⟨e0, he0, hr0⟩ := hpt' i p hp
+      obtain ⟨l, h', rfl, _, hhi0⟩ := resolveAt_some hr0 (closedHi_ne_unclaimed hph)
+      rw [specHi_of_closedHi T raws i hph] at hhi0
+      simp at hhi0; subst hhi0
+      exact ⟨l, ph, lo', hi', he0, he1, hlo'.symm⟩
+  · intro lo h0 hlt
+    obtain ⟨e0, he0, hr0⟩ := hpt' i _ h0
+    obtain ⟨lo', hi', rfl, _, hhi⟩ := resolveAt_some hr0 (by simp)
+    have hne : i + 1 ≠ raws.length := by omega
+    simp only [specHi, hne, if_false] at hhi
+    cases hp : raws[i + 1]? with
+    | none => simp [hp] at hhi
+    | some p =>
+      simp [hp] at hhi
+      obtain ⟨nl, hnl, hhi'⟩ := hhi
+      obtain ⟨e1, he1, hr1⟩ := hpt' (i + 1) p hp
+      obtain ⟨l', h', rfl, hlo1, _⟩ := resolveAt_some hr1 (closedLo_ne_unclaimed hnl)
+      rw [specLo_of_closedLo T raws (i + 1) hnl] at hlo1
+      simp at hlo1; subst hlo1
+      exact ⟨nl, h', lo', hi', he0, he1, hhi'.symm⟩
 
 /-- exhaustive instance on an 8-bit type: `{"..-1", "0", "1.."}` on sint8 — every one of the 256 values and
     the two neighbours outside the type -/
